@@ -112,6 +112,9 @@ class Mapper:
         if self.cap and rr == self.cap[0]:
             _, capval, nro = self.cap
             return v * (nro // capval) if v <= capval else nro + (v - capval) * 3
+        if self.units[rr] == "top":
+            # the largest finite limits: model value 2 is 2^63-1 (sys.maxsize), 1 and 0 lie just below
+            return 2 ** 63 - 1 - 1000 * (2 - v) if v <= 2 else 2 ** 63 - 1
         return BASE.get(rr, 0) + v * self.units[rr]
 
     def kexp(self, post, base_rl):
@@ -279,7 +282,7 @@ class SimTarget:
         else:
             blocks, ncpus = [[i] for i in range(NCPU)], NCPU
         resmap = dict((int(k), v) for k, v in meta.get("resmap", {1: 0, 2: NOFILE}).items())
-        units = {r: rnd.choice(SCALES) for r in range(NRES)}
+        units = {r: rnd.choice(SCALES + ["top"]) for r in range(NRES)}      # (simulated target only)
         cap = None
         if meta.get("capped"):
             cap = (resmap[2], meta["capval"], sim_c18.NR_OPEN)
